@@ -66,6 +66,38 @@ def check(repo: Repo, rep: Report) -> None:
                        f"`{short(node)}` has no tz=timezone.utc: the result is a naive local time")
     n_constructions = n
     # Z3: an aware datetime is converted (astimezone / arithmetic), never relabelled
+    # Z4: an absolute due time may be a datetime or a float timestamp: every schedule_absolute that computes with it converts it first
+    rep.rule("Z4-absolute-converted", "every schedule_absolute that does arithmetic / comparisons on its due time goes through self.to_datetime(duetime) first", floor=12)
+    for rel in sorted(repo.modules):
+        if not rel.startswith("reactivex/scheduler/"):
+            continue
+        for c in repo.modules[rel].tree.body:
+            if not isinstance(c, ast.ClassDef):
+                continue
+            for mth in c.body:
+                if not (isinstance(mth, ast.FunctionDef) and mth.name == "schedule_absolute" and len(mth.args.args) >= 3):
+                    continue
+                d_ = mth.args.args[1].arg
+                conv = {t.id for x in ast.walk(mth) if isinstance(x, ast.Assign) and isinstance(x.value, ast.Call) and u(x.value.func) == "self.to_datetime"
+                        and [u(a) for a in x.value.args] == [d_] for t in x.targets if isinstance(t, ast.Name)}
+                raw_use = []
+                for x in ast.walk(mth):
+                    if isinstance(x, (ast.BinOp, ast.Compare)):
+                        operands = [x.left, x.right] if isinstance(x, ast.BinOp) else [x.left] + list(x.comparators)
+                        for o in operands:
+                            if isinstance(o, ast.Name) and o.id == d_ and d_ not in conv:
+                                raw_use.append(short(x, 40))
+                uses = [x for x in ast.walk(mth) if isinstance(x, (ast.BinOp, ast.Compare)) and any(isinstance(y, ast.Name) and y.id in (conv | {d_}) for y in ast.walk(x))]
+                for x in ast.walk(mth):     # a due time stored in a ScheduledItem is compared with datetimes by the queue
+                    if isinstance(x, ast.Call) and call_name(x) == "ScheduledItem":
+                        uses.append(x)
+                        if any(isinstance(a, ast.Name) and a.id == d_ for a in x.args) and d_ not in conv:
+                            raw_use.append(short(x, 40))
+                if not uses:
+                    continue
+                rep.ob("Z4-absolute-converted", f"{rel}::{c.name}.schedule_absolute", f"{c.name}.schedule_absolute: computes with {sorted(conv) or 'the raw argument'}", not raw_use,
+                       f"{c.name}.schedule_absolute computes `{'; '.join(raw_use)}` on the raw argument: a due time given as a float timestamp "
+                       f"(AbsoluteTime = datetime | float) raises TypeError instead of being scheduled")
     rep.rule("Z3-no-relabel", "no `.replace(tzinfo=...)` / argument-less `.astimezone()` on time values: relabelling changes the instant, "
                               "and the local zone must not leak into conversions", floor=1)
     probe = ast.parse("d = x.replace(tzinfo=timezone.utc)\ne = datetime(1970, 1, 1).astimezone()\nf = y.replace(hour=3)\ng = datetime(1970, 1, 1).astimezone(timezone.utc)")
